@@ -309,4 +309,15 @@ def r5_seeds_never_evicted(a, tier):
     return rep
 
 
-RULES = [r_chain, r1_seed_loop, r2_flag_transfer, r3a, r3b, r3c, r3d, r_replay, r5_seeds_never_evicted]
+def r6_seeds_per_parse(a, tier):
+    """the seeds and guards of left recursion belong to ONE parse: a context used for a second text starts with an empty store"""
+    from . import c06
+    rep = c06.r6_per_parse_state(a, tier)
+    rep.rule = 'C03.R6'
+    for f in rep.findings:
+        f.rule = 'C03.R6'
+    rep.text = '[= C06.R6] ' + rep.text
+    return rep
+
+
+RULES = [r_chain, r1_seed_loop, r2_flag_transfer, r3a, r3b, r3c, r3d, r_replay, r5_seeds_never_evicted, r6_seeds_per_parse]
